@@ -835,6 +835,7 @@ pub fn do_special(w: &mut World, kind: &str, a: u64, b: u64, c: u64) -> VResult<
     match kind {
         "byz" => do_byz_commit(w, a as usize, 0, b as u8, c as u8),
         "apply_detached" => do_apply_detached(w, a as usize, c as usize, b),
+        "bad_join" => do_bad_join(w, a, b as usize, c as usize),
         "burst" => {
             // C05: p sends b messages and then one more that overtakes them at every receiver
             let p = a as usize;
@@ -1181,10 +1182,151 @@ pub fn after_sent(w: &mut World, p: usize, g: usize, id: u64) -> VResult<()> {
     feed_removed(w, g, id)
 }
 
-pub fn after_join(w: &mut World, p: usize, g: usize, _how: &str) -> VResult<()> {
+pub fn after_join(w: &mut World, p: usize, g: usize, how: &str) -> VResult<()> {
     w.ext.twins.remove(&(p, g));
     w.ext.at_write.remove(&(p, g));
+    if w.cfg.oracle("joiner") {
+        // the key package is still in the store until the new group is persisted
+        if let Some(kp) = w.parties[p].mems[g].join_kp.clone() {
+            w.stats.check("key-package-kept-until-first-write");
+            if how == "welcome" && w.parties[p].kpstore.raw_get(&kp).is_none() {
+                return Err(Violation::new(
+                    &w.cfg.property,
+                    "key-package-lifecycle",
+                    "key-package-gone-before-write".into(),
+                    format!("P{p}: the key package it joined g{g} with is no longer in its store although the new group has not been persisted yet"),
+                ));
+            }
+        }
+        // the joiner can exchange messages at once
+        let _ = w.send_app_inner(p, g, 7, 1, false)?;
+    }
     Ok(())
+}
+
+/// C07 negative joins: a Welcome offered to somebody it is not addressed to, with a tree of another epoch, or a
+/// stale GroupInfo with the current tree must never produce a group
+pub fn do_bad_join(w: &mut World, variant: u64, q: usize, g: usize) -> VResult<bool> {
+    if g >= w.groups.len() || q >= w.parties.len() || w.parties[q].crashed {
+        return Ok(false);
+    }
+    let prop = w.cfg.property.clone();
+    let now = w.now();
+    let client = w.parties[q].client.clone();
+    match variant {
+        0 => {
+            // a Welcome that is not addressed to q
+            let status = w.mem(q, g).status.clone();
+            if !matches!(status, Status::Never | Status::Removed) || w.mem(q, g).welcome.is_some() {
+                return Ok(false);
+            }
+            let Some(cid) = w.groups[g].log.iter().rev().find(|c| {
+                let m = &w.msgs[*c];
+                !m.welcomes.is_empty() && m.welcomes.iter().all(|(x, _)| *x != q)
+            }).copied() else {
+                return Ok(false);
+            };
+            let msg = w.msgs[&cid].clone();
+            // q must own at least one key package, otherwise the refusal is trivial
+            if w.gen_key_package(q)?.is_none() {
+                return Ok(false);
+            }
+            let wb = msg.welcomes[0].1.clone();
+            let tree = msg.oob_tree.clone();
+            let r = guarded(&prop, "join_group(not addressed)", || {
+                let wm = MlsMessage::from_bytes(&wb)?;
+                let t = match &tree {
+                    Some(t) => Some(mls_rs::group::ExportedTree::from_bytes(t)?),
+                    None => None,
+                };
+                client.join_group(t, &wm, Some(now))
+            })?;
+            w.stats.fault("J-NOT-ADDRESSED");
+            if r.is_ok() {
+                return Err(Violation::new(
+                    &prop,
+                    "mismatched-join-refused",
+                    "joined-with-foreign-welcome".into(),
+                    format!("P{q} obtained a group from the Welcome of commit {cid} although none of its entries is addressed to one of P{q}'s key packages"),
+                ));
+            }
+            w.ev(format!("bad-join P{q} g{g} variant 0 refused"));
+            Ok(true)
+        }
+        1 => {
+            // the genuine Welcome with the ratchet tree of another epoch
+            let Some((cid, wb, Some(_))) = w.mem(q, g).welcome.clone() else {
+                return Ok(false);
+            };
+            // when the Welcome carries the ratchet tree in its (signed) GroupInfo extension, a tree supplied out of
+            // band is not used at all: only Welcomes without the extension depend on the supplied tree
+            if w.msgs[&cid].spec.as_ref().map(|s| s.ratchet_tree_ext).unwrap_or(true) {
+                return Ok(false);
+            }
+            let ep = w.msgs[&cid].epoch + 1;
+            let Some((_, other)) = w.groups[g].records.iter().find(|(e, r)| **e != ep && w.groups[g].records.get(&ep).map(|x| x.tree != r.tree).unwrap_or(true)) else {
+                return Ok(false);
+            };
+            let other_tree = other.tree.clone();
+            let r = guarded(&prop, "join_group(wrong tree)", || {
+                let wm = MlsMessage::from_bytes(&wb)?;
+                client.join_group(Some(mls_rs::group::ExportedTree::from_bytes(&other_tree)?), &wm, Some(now))
+            })?;
+            w.stats.fault("J-WRONG-TREE");
+            if r.is_ok() {
+                return Err(Violation::new(
+                    &prop,
+                    "mismatched-join-refused",
+                    "joined-with-tree-of-other-epoch".into(),
+                    format!("P{q} obtained a group from the Welcome of commit {cid} together with the ratchet tree of another epoch"),
+                ));
+            }
+            w.ev(format!("bad-join P{q} g{g} variant 1 refused"));
+            Ok(true)
+        }
+        _ => {
+            // a stale GroupInfo (from a member that is behind) with the current tree
+            let status = w.mem(q, g).status.clone();
+            if !matches!(status, Status::Never | Status::Removed) {
+                return Ok(false);
+            }
+            let latest = w.groups[g].log.len() as u64;
+            let behind = w.live_members(g).into_iter().find(|m| w.epoch_of(*m, g).map(|e| e < latest).unwrap_or(false));
+            let (Some(b), Some(rec)) = (behind, w.groups[g].records.get(&latest)) else {
+                return Ok(false);
+            };
+            let be = w.epoch_of(b, g).unwrap();
+            if w.groups[g].records.get(&be).map(|r| r.tree == rec.tree).unwrap_or(true) {
+                return Ok(false);
+            }
+            let tree = rec.tree.clone();
+            let gi = {
+                let grp = w.parties[b].mems[g].group.as_ref().unwrap();
+                match grp.group_info_message_allowing_ext_commit(false) {
+                    Ok(m) => m.to_bytes().unwrap_or_default(),
+                    Err(_) => return Ok(false),
+                }
+            };
+            let r = guarded(&prop, "external_commit(stale group info)", || {
+                client
+                    .external_commit_builder()?
+                    .commit_time(now)
+                    .with_tree_data(mls_rs::group::ExportedTree::from_bytes(&tree)?.into_owned())
+                    .build(MlsMessage::from_bytes(&gi)?)
+            })?;
+            w.stats.fault("J-STALE-GROUP-INFO");
+            if r.is_ok() {
+                return Err(Violation::new(
+                    &prop,
+                    "mismatched-join-refused",
+                    "external-join-with-stale-group-info".into(),
+                    format!("P{q} obtained a group from P{b}'s GroupInfo of epoch {be} combined with the ratchet tree of epoch {latest}"),
+                ));
+            }
+            w.ev(format!("bad-join P{q} g{g} variant 2 refused"));
+            Ok(true)
+        }
+    }
 }
 
 pub fn retained(w: &World, p: usize, g: usize, e: u64) -> bool {
@@ -1340,6 +1482,10 @@ pub fn expect_msg(w: &World, p: usize, g: usize, id: u64) -> Expect {
     let mem = &w.parties[p].mems[g];
     match msg.kind {
         MsgKind::App => {
+            if mem.rejoined_same_storage && msg.epoch < mem.join_epoch && member_then {
+                // the storage still holds epochs of the earlier membership: either outcome is legitimate
+                return Expect::May;
+            }
             if !member_then || msg.epoch > epoch || msg.epoch < mem.join_epoch {
                 return Expect::MustErr;
             }
@@ -1499,6 +1645,19 @@ pub fn after_accepted(_w: &mut World, _p: usize, _g: usize, _id: u64, _pre: Pre)
 }
 
 pub fn after_write(w: &mut World, p: usize, g: usize, _pre: Pre) -> VResult<()> {
+    if w.cfg.oracle("joiner") {
+        if let Some(kp) = w.parties[p].mems[g].join_kp.take() {
+            w.stats.check("key-package-deleted-at-first-write");
+            if w.parties[p].kpstore.raw_get(&kp).is_some() {
+                return Err(Violation::new(
+                    &w.cfg.property,
+                    "key-package-lifecycle",
+                    "key-package-kept-after-write".into(),
+                    format!("P{p} persisted the group it joined, but the private keys of the key package it used are still in its key-package store"),
+                ));
+            }
+        }
+    }
     if w.cfg.oracle("retention") {
         let gid = w.groups[g].gid.clone();
         let ids: BTreeSet<u64> = w.parties[p].gstore.view(&gid).epochs.keys().copied().collect();
